@@ -301,7 +301,12 @@ pub fn install_quiet_panic_hook() {
         if std::env::var_os("VERIF_PANIC_TRACE").is_some() {
             eprintln!("[panic] {loc}: {msg}");
         }
-        *LAST_PANIC.lock().unwrap_or_else(|e| e.into_inner()) = Some((loc, msg));
+        // keep the *first* panic since the last take: a scope re-raising a task's panic must not hide its origin
+        let mut g = LAST_PANIC.lock().unwrap_or_else(|e| e.into_inner());
+        let keep_existing = matches!(&*g, Some((_, m)) if !m.starts_with("one of the tasks panicked"));
+        if !keep_existing {
+            *g = Some((loc, msg));
+        }
     }));
 }
 
